@@ -101,7 +101,7 @@ pub fn run(words: &[&str], ctx: &mut Ctx) -> String {
     let shape = Shape { nodes: n, dcs: 1, racks: 1, shards: sh as u16, msb: 12, vnodes: 2, strat: Strat::Simple(1), seed };
     let mut topo = shape.topology();
     for k in ["ka", "kb"] {
-        topo.keyspaces.push(KeyspaceSpec { name: k.into(), replication: simple_strategy(1), tables: vec![std_table()] });
+        topo.keyspaces.push(KeyspaceSpec { name: k.into(), replication: simple_strategy(1), tables: vec![std_table()], initial_tablets: None });
     }
     let handler = with_std_prepare(move |r: &Req| match &r.parsed {
         Parsed::Query { text, .. } if parse_use(text).is_some() => {
